@@ -46,6 +46,20 @@ def new_state():
 
 def _mk(fd):
     import pyspike
+    if fd.get("as_int"):
+        # constructed from Python ints (integer breakpoints and values): the
+        # objects then hold integer arrays
+        xs = [int(v) for v in fd["x"]]
+        if fd["kind"] == "pwc":
+            real = pyspike.PieceWiseConstFunc(xs, [int(v) for v in fd["y"]])
+            model = O.PW(xs, [int(v) for v in fd["y"]])
+            mag = max([1.0] + [abs(v) for v in fd["y"]])
+        else:
+            real = pyspike.PieceWiseLinFunc(xs, [int(v) for v in fd["y1"]],
+                                            [int(v) for v in fd["y2"]])
+            model = O.PW(xs, [int(v) for v in fd["y1"]], [int(v) for v in fd["y2"]])
+            mag = max([1.0] + [abs(v) for v in fd["y1"] + fd["y2"]])
+        return dict(real=real, model=model, kind=fd["kind"], scale=mag)
     if fd["kind"] == "pwc":
         real = pyspike.PieceWiseConstFunc(np.array(fd["x"]), np.array(fd["y"]))
         model = O.PW(fd["x"], fd["y"])
@@ -172,6 +186,48 @@ def apply_op(state, op, ctx):
         ctx.check([_snapshot(S[k]) for k in sel] == snaps, "operand_modified",
                   lambda: "average_profile changed one of its arguments %r" % (sel,))
         _check_all(ctx, state, "after average_profile(%r)" % (sel,))
+    elif name == "probe":
+        # queries in the middle of a history: a stale cache or an object changed
+        # by a query shows up here
+        d = op[1] % len(S)
+        slot = S[d]
+        r, m = slot["real"], slot["model"]
+        tol = TOL * slot["scale"]
+        x0, xN = m.x[0], m.x[-1]
+        span = float(xN - x0)
+        snap = _snapshot(slot)
+        for (fa, fb) in op[2]:
+            a = x0 + (xN - x0) * Fr(fa)
+            b = x0 + (xN - x0) * Fr(fb)
+            if not a < b:
+                continue
+            got = ctx.call("integral_interval", r.integral, (float(a), float(b)))
+            ref = m.integral(Fr(float(a)), Fr(float(b)))
+            ctx.check(abs(float(got) - float(ref)) <= tol * max(1.0, span) * 4,
+                      "integral_interval_in_history",
+                      lambda: "object %d: integral((%r,%r))=%r expected %r"
+                      % (d, float(a), float(b), float(got), float(ref)))
+            av = ctx.call("avrg_interval", r.avrg, (float(a), float(b)))
+            ln = Fr(float(b)) - Fr(float(a))
+            ctx.check(abs(float(av) - float(ref / ln)) <= tol * max(1.0, span) * 4 / min(1.0, float(ln)),
+                      "avrg_interval_in_history",
+                      lambda: "object %d: avrg((%r,%r))=%r expected %r"
+                      % (d, float(a), float(b), float(av), float(ref / ln)))
+        ts = [float(x0 + (xN - x0) * Fr(f)) for f in op[3]]
+        if ts:
+            got = ctx.call("eval_list", r, ts)
+            exp = [m.value(Fr(t)) for t in ts]
+            ctx.check(all(abs(float(g) - float(e)) <= tol for g, e in zip(got, exp)),
+                      "evaluation_in_history",
+                      lambda: "object %d: f(%r)=%r expected %r" % (d, ts, list(map(float, got)),
+                                                                   ps.fl(exp)))
+        av = ctx.call("avrg", r.avrg)
+        ctx.check(abs(float(av) - float(m.integral() / (xN - x0))) <= tol * 4, "avrg_in_history",
+                  lambda: "object %d: avrg()=%r expected %r"
+                  % (d, float(av), float(m.integral() / (xN - x0))))
+        ctx.check(_snapshot(slot) == snap, "object_modified_by_query",
+                  "integral/avrg/evaluation changed the object")
+        _check_all(ctx, state, "after probe(%d)" % d)
     else:
         raise ValueError("unknown op %r" % (op,))
 
@@ -237,6 +293,14 @@ def _machine(ctx, tier, stats, mod, deadline):
         def backend(self, b):
             self.do(["backend", b])
 
+        @rule(d=st.integers(0, 99),
+              ivs=st.lists(st.tuples(st.integers(0, 16), st.integers(0, 16)), min_size=1,
+                           max_size=3),
+              ts=st.lists(st.integers(0, 16), max_size=4))
+        def probe(self, d, ivs, ts):
+            self.do(["probe", d, [[min(a, b) / 16.0, max(a, b) / 16.0] for a, b in ivs],
+                     [t / 16.0 for t in ts]])
+
     return hist.bind(AddMachine, mod, ctx, stats, deadline, "machine")
 
 
@@ -253,8 +317,18 @@ def _pair(draw, tier):
     mp = 7 if tier == "quick" else 16
     f = draw(pw_arrays(kind, q, k0, n, mp, pool))
     g = draw(pw_arrays(kind, q, k0, n, mp, pool, f["x"]))
-    return dict(kind="pair", f=f, g=g, c=draw(st.sampled_from([0.5, 2.0, -1.0, 0.25])),
-                compiled=draw(st.booleans()))
+    c = dict(kind="pair", f=f, g=g, c=draw(st.sampled_from([0.5, 2.0, -1.0, 0.25])),
+             compiled=draw(st.booleans()))
+    if q == 1 and draw(st.sampled_from([False, False, True])):
+        # receiver written with integers (e.g. a zero accumulator): only with the
+        # Python fallback, the compiled routines accept float64 buffers only
+        for key in ("y", "y1", "y2"):
+            if key in f:
+                f[key] = [float(int(v)) for v in f[key]]
+        f["as_int"] = True
+        c["compiled"] = False
+        c["c"] = 2.0
+    return c
 
 
 def _enum(tier, shard, nshards):
@@ -304,6 +378,8 @@ def classify(case):
     f, g = case["f"], case["g"]
     labels = ["pair", "kind:" + f["kind"], "compiled" if case["compiled"] else "fallback",
               "add:" + _tail_class(f["x"], g["x"])]
+    if f.get("as_int"):
+        labels.append("integer_receiver")
     if set(f["x"][1:-1]) & set(g["x"][1:-1]):
         labels.append("shared_interior_breakpoint")
     if len(f["x"]) == 2 or len(g["x"]) == 2:
@@ -374,5 +450,9 @@ def run_case(case, ctx):
     yb = rb.y if b["kind"] == "pwc" else np.concatenate([rb.y1, rb.y2])
     ctx.check(len(ya) == len(yb) and bool(np.all(np.abs(ya - yb) <= tol)), "commutation",
               lambda: "f+g=%r, g+f=%r" % (list(ya), list(yb)))
+    apply_op(st_, ["probe", 0, [[0.0, 1.0], [0.25, 0.5], [0.125, 0.875]], [0.0, 0.5, 1.0]], ctx)
+    if case["f"].get("as_int"):
+        return      # in-place scaling of integer arrays is a numpy casting error by design
     apply_op(st_, ["mul", 0, case["c"]], ctx)
+    apply_op(st_, ["probe", 0, [[0.0, 1.0], [0.25, 0.5]], [0.25]], ctx)
     apply_op(st_, ["avg", [0, 1, 2]], ctx)
